@@ -460,7 +460,7 @@ fn fails_same(sc: &BlockScenario, oracle: &str) -> Option<Fail> {
 
 pub fn minimise(sc: &BlockScenario, oracle: &str) -> BlockScenario {
     // bounded effort: a sequence for a large block costs about a second per execution
-    let deadline = std::time::Instant::now() + std::time::Duration::from_secs(90);
+    let deadline = crate::util::deadline_after(90);
     let fails_same = |c: &BlockScenario, name: &str| -> Option<Fail> {
         if std::time::Instant::now() > deadline {
             return None;
@@ -588,7 +588,7 @@ pub fn run(ctx: &Ctx) -> i32 {
             eprintln!("WARNING: C02 probe '{z}' never fired in this batch");
         }
     }
-    let wall = t0.elapsed().as_secs_f64();
+    let wall = t0.elapsed().as_secs_f64() / crate::clock::rate() as f64; // real seconds, also under a fast clock
     report::write_evidence(
         ctx,
         &Evidence {
